@@ -49,14 +49,14 @@ def _start(ctx: Ctx, attach) -> None:
 # ---------------------------------------------------------------------------------------------
 
 
-def prelude(w, same_request: bool = False, idle_ms: int = 0, mode=None, closure=None) -> bool:
+def prelude(w, same_request: bool = False, idle_ms: int = 0, mode=None, closure=None, msgs=None) -> bool:
     """An earlier, fault-free, complete transaction on the same handler objects and the same filestore (not
     judged: monitors are attached afterwards). With same_request the very request of the run is executed
     (same path, size and content), otherwise the file goes to dst/prev.bin."""
     c = w.cfg
     if c.metadata_only:
         return False
-    req = w.put_request_obj(None)
+    req = w.put_request_obj(msgs)
     if not same_request:
         req.dest_file = Path("dst/prev.bin")
     if mode is not None:
@@ -95,7 +95,8 @@ def faultfree(t, attach=None, force=None) -> Ctx:
     # that may exceed every timer interval (the clock is virtual)
     if t.choose(4, "prelude") == 3:
         prelude(w, same_request=bool(t.choose(2, "prelude same request")), idle_ms=[0, 5000, 200_000_000][t.choose(3, "prelude idle")],
-                mode=[None, ACK, UNACK][t.choose(3, "prelude mode")], closure=[None, True, False][t.choose(3, "prelude closure")])
+                mode=[None, ACK, UNACK][t.choose(3, "prelude mode")], closure=[None, True, False][t.choose(3, "prelude closure")],
+                msgs=build_msgs(t.weighted([3, 1, 2, 1, 1, 1, 1], "prelude msgs"))[0])
         w.max_events += w.nev
         w.max_t += w.clock.t
     _start(ctx, attach)
